@@ -73,42 +73,60 @@ func childMain() {
 		}
 		n++
 		x.begin(cell)
-		resp := ep.Run(x, sp.Case.Cluster, w)
-		stmts := x.taken()
-		o := judge(cell, ep, sp.Case.Cluster, resp, stmts, func(w2 Win) []StmtRec { x.begin(cell); ep.Run(x, sp.Case.Cluster, w2); return x.taken() })
-		fmt.Fprintf(report, "== %s  reader TZ=%s writer TZ=%s cluster=%v window=%s\n", ep.Name, sp.Case.Reader, wd.Zone, sp.Case.Cluster, w)
-		for i, s := range stmts {
-			fmt.Fprintf(report, "  statement #%d: %s\n", i+1, s.SQL)
-			if s.Err != "" {
-				fmt.Fprintf(report, "    error (%s): %s\n", s.Class, s.Err)
+		var parts []Part
+		if ep.RunParts != nil {
+			parts = ep.RunParts(x, sp.Case.Cluster, w)
+		} else {
+			r := ep.Run(x, sp.Case.Cluster, w)
+			parts = []Part{{Win: w, Resp: r, Stmts: x.taken()}}
+		}
+		for pi, pt := range parts {
+			pc := *cell
+			pc.Win = pt.Win
+			resp, stmts := pt.Resp, pt.Stmts
+			var rerun func(Win) []StmtRec
+			if ep.RunParts == nil {
+				rerun = func(w2 Win) []StmtRec { x.begin(cell); ep.Run(x, sp.Case.Cluster, w2); return x.taken() }
 			}
-			for _, sc := range s.Scans {
-				var adm []string
-				for _, r := range sc.Rows {
-					if it := cell.ItemOfRow(sc.Table, r); it != nil {
-						adm = append(adm, it.Marker)
+			o := judge(&pc, ep, sp.Case.Cluster, resp, stmts, rerun)
+			w := pt.Win
+			if len(parts) > 1 {
+				fmt.Fprintf(report, "-- part %d of %d\n", pi+1, len(parts))
+			}
+			fmt.Fprintf(report, "== %s  reader TZ=%s writer TZ=%s cluster=%v window=%s\n", ep.Name, sp.Case.Reader, wd.Zone, sp.Case.Cluster, w)
+			for i, s := range stmts {
+				fmt.Fprintf(report, "  statement #%d: %s\n", i+1, s.SQL)
+				if s.Err != "" {
+					fmt.Fprintf(report, "    error (%s): %s\n", s.Class, s.Err)
+				}
+				for _, sc := range s.Scans {
+					var adm []string
+					for _, r := range sc.Rows {
+						if it := cell.ItemOfRow(sc.Table, r); it != nil {
+							adm = append(adm, it.Marker)
+						}
 					}
+					if !sp.Verbose && len(adm) > 12 {
+						adm = append(adm[:12], fmt.Sprintf("… (%d)", len(adm)))
+					}
+					fmt.Fprintf(report, "    scan %s: offered %d admitted %d %v\n", sc.Table, sc.Offered, sc.Admitted, adm)
 				}
-				if !sp.Verbose && len(adm) > 12 {
-					adm = append(adm[:12], fmt.Sprintf("… (%d)", len(adm)))
-				}
-				fmt.Fprintf(report, "    scan %s: offered %d admitted %d %v\n", sc.Table, sc.Offered, sc.Admitted, adm)
 			}
-		}
-		txt := resp.Text
-		if !sp.Verbose && len(txt) > 1500 {
-			txt = txt[:1500] + "…"
-		}
-		fmt.Fprintf(report, "  response status=%d err=%q: %s\n", resp.Status, resp.Err, txt)
-		fmt.Fprintf(report, "  returned (%d of %d owed): %v\n", len(o.Returned), o.MustN, o.Returned)
-		for _, u := range o.Unsupp {
-			fmt.Fprintf(report, "  UNSUPPORTED by chsim: %s\n", u)
-		}
-		if len(o.Findings) == 0 {
-			fmt.Fprintf(report, "  verdict: holds\n")
-		}
-		for _, f := range o.Findings {
-			fmt.Fprintf(report, "  DEVIATION class=%s %s\n", f.Class, f.What)
+			txt := resp.Text
+			if !sp.Verbose && len(txt) > 1500 {
+				txt = txt[:1500] + "…"
+			}
+			fmt.Fprintf(report, "  response status=%d err=%q: %s\n", resp.Status, resp.Err, txt)
+			fmt.Fprintf(report, "  returned (%d of %d owed): %v\n", len(o.Returned), o.MustN, o.Returned)
+			for _, u := range o.Unsupp {
+				fmt.Fprintf(report, "  UNSUPPORTED by chsim: %s\n", u)
+			}
+			if len(o.Findings) == 0 {
+				fmt.Fprintf(report, "  verdict: holds\n")
+			}
+			for _, f := range o.Findings {
+				fmt.Fprintf(report, "  DEVIATION class=%s %s\n", f.Class, f.What)
+			}
 		}
 	}
 	if n == 0 {
